@@ -690,6 +690,27 @@ func (env *specEnv) call(n *SCall) (TV, error) {
 			return TV{}, fmt.Errorf("hits: argument must be a quoted call site \"callee#k\"")
 		}
 		return TV{env.h(hitsKey(ts.V)), "Int", intT()}, nil
+	case "concat", "hasSuffix", "hasPrefix", "strIndex", "splitLast":
+		a, err := env.Term(n.Args[0])
+		if err != nil {
+			return TV{}, err
+		}
+		b, err := env.Term(n.Args[1])
+		if err != nil {
+			return TV{}, err
+		}
+		a, b = env.view(a), env.view(b)
+		switch n.Fn {
+		case "strIndex":
+			return TV{fmt.Sprintf("(strindex %s %s)", a.T, b.T), "Int", intT()}, nil
+		case "splitLast":
+			return TV{fmt.Sprintf("(splitlast %s %s)", a.T, b.T), "Str", types.Typ[types.String]}, nil
+		case "concat":
+			return TV{fmt.Sprintf("(strcat %s %s)", a.T, b.T), "Str", types.Typ[types.String]}, nil
+		case "hasSuffix":
+			return TV{fmt.Sprintf("(strsuffix %s %s)", a.T, b.T), "Bool", nil}, nil
+		}
+		return TV{fmt.Sprintf("(strprefix %s %s)", a.T, b.T), "Bool", nil}, nil
 	case "regexp_compiles":
 		a, err := env.Term(n.Args[0])
 		if err != nil {
